@@ -15,7 +15,7 @@ def classify(inp, obs, tags):
 PROP = dict(
     engines=[dict(
         name="reads", classify=classify,
-        quick=dict(cases=160, shards=8, profiles=["debug", "release"]),
+        quick=dict(cases=120, shards=6, profiles=["debug", "release"]),
         thorough=dict(cases=6000, shards=16, profiles=["debug", "release"]),
     )],
     rule="one case = one real vector (BytesVec<u64>, BytesVec<5-byte non-native element>, ZeroCopyVec<u64>, PcoVec/LZ4Vec/"
@@ -34,7 +34,6 @@ PROP = dict(
         "the state fed to the model is the harness's dump of the real vector (region bytes read through rawdb, stored_len, pushed, "
         "holes, updated, page index); page contents of compressed pages are taken from the harness's committed reference "
         "(raw pages are decoded and cross-checked), so losslessness of the compressors (C07) is assumed by the model level only",
-        "whether the `updated` BTreeMap has an allocated root (BTreeMap::range checks its bounds only then) is tracked by the harness from the operations performed",
         "a read that produces more than 4e6 tap events is aborted and reported as non-terminating",
     ],
     assumptions=[
@@ -54,13 +53,18 @@ ENGINES = [
 TEXT = dict(
     design_ref="DESIGN.md section 4, C08",
     technique="Coq proof per read path over an executable model of the read side + extracted-model differential with access tap",
-    text=("Proof: Coq theorems C08_* (Props/C08.v) over executable transcriptions of the read paths of the raw and compressed "
-          "vectors, their read-only clones, the cursor, the default sorted read and CachedVec: for every well-formed state and every "
-          "request the path yields the logical contents restricted to the request and does not panic; where the faithful model "
-          "refutes this (cursor / sorted reads over deleted slots, CachedVec keyed on (len, version), dirty fold starting past "
-          "stored_len, read_at_once on a buffered index, lean clones) the full statement is kept as *_full with a *_refuted witness. "
-          "The models are validated against the real vectors (debug and release builds) on generated states, with results and "
-          "fetched byte ranges compared."),
+    text=("Proof: Coq theorems C08_* (Props/C08.v) over executable transcriptions of the read paths: for every well-formed "
+          "raw-vector state (deleted slots, `updated` overlay, stored_len above the on-disk length) and every from/to, "
+          "read_into_at (memcpy, per-element and dirty paths), fold_range_at, try_fold_range_at (with early exit), fold_dirty, "
+          "both scan back-ends (RawMmapSource, RawIoSource refill arithmetic), collect_one_at, get_any_or_read_at, "
+          "collect_holed_range, read_at_once, read_ref_at yield exactly the logical contents restricted to the request and do "
+          "not panic; on states without deleted slots the cursor (get/next/fold), the default sorted read (any index list) and a "
+          "freshly filled CachedVec do too; for compressed vectors (codec hypothesis built into the state) "
+          "read_stored_pages_into, read_into_at, the mmap and IO sources, fold/try_fold, cursor, sorted reads and CachedVec. "
+          "C08_agree is the conjunction. Refuted by the faithful model and kept as *_full with *_refuted witnesses: cursor / "
+          "sorted reads over a deleted slot (panic, wrong value, non-termination), CachedVec keyed on (len, version), lean clones "
+          "ignoring deleted slots. The models are validated against the real vectors (debug and release builds) on generated "
+          "states, results and fetched byte ranges compared."),
     note=("Trusted: Coq kernel; extraction and the OCaml driver; the Rust harness and the access taps. The Rust code is modelled, "
           "not verified: the tie is regenerated constants plus differential agreement on generated inputs (bounded sample)."),
 )
